@@ -731,3 +731,80 @@ pub proof fn lemma_covers_two(z: Seq<SpCv>, x: Seq<u8>, t0: u64, key: Seq<u32>, 
     assert(z.subrange(0, 1) =~= seq![z[0]]);
     assert(z.subrange(1, 2) =~= seq![z[1]]);
 }
+
+// ---- composition of subtrees (hazmat): every decomposition that splits at left_len reproduces the tree -----
+pub enum SpDecomp {
+    Leaf,                                   // a subtree hashed as a whole (by one hasher, any update sequence)
+    Node(Box<SpDecomp>, Box<SpDecomp>),     // split at sp_left_len, children merged with merge_subtrees_non_root
+}
+
+pub open spec fn sp_decomp_valid(d: SpDecomp, len: nat) -> bool
+    decreases d,
+{
+    match d {
+        SpDecomp::Leaf => len > 0,
+        SpDecomp::Node(l, r) => len > 1024 && sp_decomp_valid(*l, sp_left_len(len))
+            && sp_decomp_valid(*r, (len - sp_left_len(len)) as nat),
+    }
+}
+
+// what the caller computes: leaves are subtree chaining values, nodes are merge_subtrees_non_root
+pub open spec fn sp_decomp_cv(d: SpDecomp, x: Seq<u8>, t0: u64, key: Seq<u32>, flags: u8) -> SpCv
+    decreases d,
+{
+    match d {
+        SpDecomp::Leaf => sp_subtree_cv(x, t0, key, flags),
+        SpDecomp::Node(l, r) => {
+            let ll = sp_left_len(x.len()) as int;
+            sp_parent_cv(
+                sp_decomp_cv(*l, x.subrange(0, ll), t0, key, flags),
+                sp_decomp_cv(*r, x.subrange(ll, x.len() as int), (t0 + ll / 1024) as u64, key, flags),
+                key, flags)
+        },
+    }
+}
+
+pub proof fn lemma_decomp(d: SpDecomp, x: Seq<u8>, t0: u64, key: Seq<u32>, flags: u8)
+    requires
+        sp_decomp_valid(d, x.len()),
+        t0 + sp_num_chunks(x.len()) <= 0x1_0000_0000_0000_0000,
+    ensures
+        sp_decomp_cv(d, x, t0, key, flags) == sp_subtree_cv(x, t0, key, flags),
+    decreases d,
+{
+    match d {
+        SpDecomp::Leaf => {},
+        SpDecomp::Node(l, r) => {
+            lemma_subtree_split(x, t0, key, flags);
+            lemma_lp2(sp_num_chunks(x.len()));
+            let ll = sp_left_len(x.len()) as int;
+            lemma_chunk_cvs_split(x, t0, key, flags, sp_lp2(sp_num_chunks(x.len())));
+            lemma_decomp(*l, x.subrange(0, ll), t0, key, flags);
+            lemma_decomp(*r, x.subrange(ll, x.len() as int), (t0 + ll / 1024) as u64, key, flags);
+        },
+    }
+}
+
+// the root: merge_subtrees_root / merge_subtrees_root_xof of the two top-level chaining values
+pub proof fn lemma_decomp_root(l: SpDecomp, r: SpDecomp, x: Seq<u8>, key: Seq<u32>, flags: u8)
+    requires
+        x.len() > 1024,
+        x.len() <= 0xffff_ffff_ffff_ffff,
+        sp_decomp_valid(l, sp_left_len(x.len())),
+        sp_decomp_valid(r, (x.len() - sp_left_len(x.len())) as nat),
+    ensures
+        ({
+            let ll = sp_left_len(x.len()) as int;
+            sp_parent_out(
+                sp_decomp_cv(l, x.subrange(0, ll), 0, key, flags),
+                sp_decomp_cv(r, x.subrange(ll, x.len() as int), (ll / 1024) as u64, key, flags),
+                key, flags) == sp_root_out(x, key, flags)
+        }),
+{
+    lemma_left_len_bounds(x.len());
+    lemma_lp2(sp_num_chunks(x.len()));
+    let ll = sp_left_len(x.len()) as int;
+    lemma_chunk_cvs_split(x, 0, key, flags, sp_lp2(sp_num_chunks(x.len())));
+    lemma_decomp(l, x.subrange(0, ll), 0, key, flags);
+    lemma_decomp(r, x.subrange(ll, x.len() as int), (ll / 1024) as u64, key, flags);
+}
